@@ -61,7 +61,7 @@ def ref_rows(stage, changes, start_row, start_index, n):
     return rows
 
 
-def ref_call_rows(stage, changes, start_index, start_row, bob_ref, single_ref, ops):
+def ref_call_rows(stage, changes, start_index, start_row, bob_ref, single_ref, ops, trace=None):
     """Reference semantics of Bob/Single (C04), written from the property statement: a call stays
     pending until the first row whose lead position has a definition for it; there its changes
     replace the method's, one per row, then the plain method resumes.  Returns (rows, ok) where ok
@@ -100,6 +100,8 @@ def ref_call_rows(stage, changes, start_index, start_row, bob_ref, single_ref, o
                 queue = list(single[li])
                 pending = set()
             ch = queue.pop(0) if queue else changes[li]
+            if trace is not None:
+                trace.append(list(ch))           # (the change the notation / call definition names for this row)
             row = ref_apply(stage, ch, row)
             rows.append(row)
             k += 1
